@@ -226,6 +226,17 @@ def run_config(cfg, res):
           router.addDestination(back)
           live.append(back)
           steps.append(['add', list(back)])
+        # an instance that is already configured is announced again on another port (a typo in DESTINATIONS, a second
+        # relay process): refused or not, lookups keep returning configured triples only
+        if step % 2 == 1 and live:
+          twin = r.choice(live)
+          try:
+            router.addDestination((twin[0], twin[1] + 7, twin[2]))
+            steps.append(['add-again-on-other-port', list(twin), 'accepted'])
+            live = [d for d in live if (d[0], d[2]) != (twin[0], twin[2])] + [(twin[0], twin[1] + 7, twin[2])]
+          except Exception:
+            steps.append(['add-again-on-other-port', list(twin), 'refused'])
+          res.count('duplicate_instance_adds')
         conf_now = set(live)
         elig_now = len(set(d[0] for d in live)) if cell['diverse'] else len(live)
         cell_now = dict(cell, dests=[list(d) for d in live], history=steps)
